@@ -421,6 +421,9 @@ def contract_fn(text, opts, log, what):
         head = "#[verifier::external_body]\n" + head
         body = "{ unimplemented!() }"
         log.append("external_body (body dropped and NOT verified, contract assumed)")
+    if opts.get("rlimit"):
+        head = "#[verifier::rlimit(%d)]\n" % opts["rlimit"] + head          # solver budget only (default 10)
+        log.append("solver resource limit raised to %d for this function" % opts["rlimit"])
     if contract:
         return head.rstrip() + "\n" + contract + "\n" + body
     return head.rstrip() + "\n" + body
